@@ -12,7 +12,7 @@
    COMPLETENESS (no legal move is missing, no duplicates) is kept visible in C01_full: it is NOT assumed anywhere; it is decided on
    every run by the extracted monitors applied to the engine's answers (checks/chesscore.py). *)
 From Coq Require Import NArith List Bool.
-From JV Require Import Model.Chess Model.Abs Spec.ChessSpec Proofs.MoveGenProofs Proofs.LegalInv Proofs.LegalInvB Proofs.AttackSpec Proofs.Soundness.
+From JV Require Import Model.Chess Model.Abs Spec.ChessSpec Proofs.MoveGenProofs Proofs.LegalInv Proofs.LegalInvB Proofs.AttackSpec Proofs.AbsMake Proofs.Soundness Proofs.Rejected.
 
 Theorem C01_legality_paths_agree : forall g all,
   filter (is_legal g) (generate_moves g all) = filter (made g) (generate_moves g all).
@@ -38,6 +38,13 @@ Theorem C01_in_check_is_in_check : forall g c, legal_inv g ->
   ChessSpec.in_check (board (abs g)) c = in_check_raw (bbs g) (aocc g) (wb c).
 Proof. intros g c (C & KG & R & _). exact (in_check_model g c C R KG). Qed.
 
+(* the verdict of make_search_move on a generated move is the rules' own test: either the move is made, or it is refused and the
+   mover's king is attacked on the board the rules obtain by applying the move *)
+Theorem C01_make_verdict_is_the_rules_check_test : forall g all m, legal_inv g -> In m (generate_moves g all) ->
+  (exists g', make_search_move g m = Made g') \/
+  (make_search_move g m = Illegal /\ ChessSpec.in_check (apply_board (abs g) (umove m)) (colr (white g)) = true).
+Proof. exact make_verdict. Qed.
+
 (* the full property, as the monitors state it (visible, not assumed, not yet proved for all wf positions) *)
 Definition C01_full : Prop := forall g, wf g = true ->
   mon_legal_set g (legal_values g (generate_moves g true)) = true /\
@@ -47,5 +54,6 @@ Print Assumptions C01_legality_paths_agree.
 Print Assumptions C01_accepted_moves_are_legal.
 Print Assumptions C01_generated_moves_are_pseudo_legal.
 Print Assumptions C01_in_check_is_in_check.
+Print Assumptions C01_make_verdict_is_the_rules_check_test.
 Print Assumptions C01_is_legal_iff_made.
 Print Assumptions C01_generated_flags.
